@@ -86,6 +86,7 @@ type Candidates struct {
 	lock                sync.RWMutex
 	loaded              bool
 	isChangedPublicKeys bool
+	changedKeys         map[types.Pubkey]types.Pubkey // new key -> key held at the last validator update
 
 	totalStakes            *big.Int
 	deletedCandidates      map[types.Pubkey]*deletedID
@@ -511,6 +512,12 @@ func (c *Candidates) RecalculateStakes(height uint64) {
 // 2. Applies updates
 // 3. Removal of candidates over 100
 func (c *Candidates) RecalculateStakesV2(height uint64) {
+	defer func() {
+		// the validator set is rebuilt right after this call: the previous keys are not needed any more
+		c.lock.Lock()
+		c.changedKeys = nil
+		c.lock.Unlock()
+	}()
 	c.recalculateStakes(height)
 	candidates := c.getOrderedCandidatesLessID()
 	if len(candidates) < 100 {
@@ -1346,6 +1353,17 @@ func (c *Candidates) ChangePubKey(old types.Pubkey, new types.Pubkey) {
 	c.lock.Lock()
 	delete(c.pubKeyIDs, old)
 	c.isChangedPublicKeys = true
+	// until the validator update at the end of the block the validator entry keeps the key the
+	// candidate had when the set was formed
+	if c.changedKeys == nil {
+		c.changedKeys = map[types.Pubkey]types.Pubkey{}
+	}
+	orig := old
+	if o, ok := c.changedKeys[old]; ok {
+		orig = o
+		delete(c.changedKeys, old)
+	}
+	c.changedKeys[new] = orig
 	c.lock.Unlock()
 }
 
@@ -1454,6 +1472,13 @@ func (c *Candidates) maxIDBytes() []byte {
 
 func (c *Candidates) DeleteCandidate(height uint64, candidate *Candidate) {
 	if c.bus.Validators().IsValidator(candidate.PubKey) {
+		return
+	}
+	// a validator that changed its key in this block is still listed under the previous key
+	c.lock.RLock()
+	prevKey, rekeyed := c.changedKeys[candidate.PubKey]
+	c.lock.RUnlock()
+	if rekeyed && c.bus.Validators().IsValidator(prevKey) {
 		return
 	}
 
